@@ -125,7 +125,7 @@ theorem load_prefix_partial (bind : Bytes → Option Doc) (file : Bytes) (n : Na
 
 /-- **RFC 8259 trees are accepted**: for every well-formed tree `j` (`Spec.WF`: numbers satisfy `isNumber`, string
 bodies and keys `isStrBody`) whose brackets nest at most `maxNestingDepth` = 10000 deep — the limit of Go's
-scanner, which `jsonValid` mirrors; beyond it the statement is false — the compact rendering is accepted by
+scanner, which `jsonValid` mirrors; beyond it Go rejects the text — the compact rendering is accepted by
 `jsonValid` (the port of `json.Valid`) -/
 theorem json_render_valid (j : Json) (hwf : WF j) (hd : JsonScan.depth j ≤ maxNestingDepth) :
     jsonValid (render j) = true :=
